@@ -34,7 +34,13 @@ try:
                     b = json.load(open(rp)); keys.append((b['key'], b['what'][:140], 'no-failing-input-found' in l))
                 except Exception:
                     keys.append((rp, '', False))
-        res['checks'][pid] = dict(exit=rc, violations=keys, wall=round(time.time() - t0, 1))
+        broken = []
+        try:
+            ev = json.load(open('/verif/evidence/%s.json' % pid))
+            broken = [o['name'] for o in ev['coverage'].get('obligation_failures', [])]
+        except Exception:
+            pass
+        res['checks'][pid] = dict(exit=rc, violations=keys, wall=round(time.time() - t0, 1), obligations_broken=broken)
         print('%s exit=%d wall=%.0fs' % (pid, rc, time.time() - t0))
         for k in keys[:6]:
             print('    ', k)
